@@ -92,12 +92,13 @@ session_token_expiry_seconds = {tok_exp}
     if let Some(u) = cfg.get("admin_key").and_then(|v| v.as_str()) {
         toml.push_str(&format!("initial_admin_key = \"{u}\"\n"));
     }
+    let file_level = cfg.get("file_level").and_then(|v| v.as_str()).unwrap_or("error").to_string();
     toml.push_str(&format!(
         r#"
 [logging]
 log_dir = "{r}/logs"
 stdout_level = "error"
-file_level = "error"
+file_level = "{file_level}"
 
 [query]
 zone_index_cache_max_entries = 256
